@@ -129,6 +129,19 @@ class BuildLock:
             BuildLock._f = None
 
 
+_RUN_LOCK = None
+
+
+def acquire_run_lock():
+    """Checks against /repo itself share lean/Generated and may overlap (shared lock).  A check pointed at ANOTHER tree
+    (FLEXSTACK_REPO=<scratch worktree with a seeded change>) regenerates lean/Generated from that tree, which would make
+    concurrently running checks see facts of the wrong tree: it takes the lock exclusively for its whole run."""
+    global _RUN_LOCK
+    _RUN_LOCK = open(os.path.join(LEAN, ".run.lock"), "w")
+    other_tree = os.path.realpath(REPO) != os.path.realpath("/repo")
+    fcntl.flock(_RUN_LOCK, fcntl.LOCK_EX if other_tree else fcntl.LOCK_SH)
+
+
 def lake_build(targets, timeout=3000):
     """returns (ok, log)"""
     with BuildLock():
@@ -140,6 +153,18 @@ def lake_build(targets, timeout=3000):
             raise Infra("lake build timed out")
     log = p.stdout + p.stderr
     return p.returncode == 0, log
+
+
+def leanchecker(modules, timeout=1500):
+    """independent re-check of the compiled .olean files of `modules` (and what they import from this package) by
+    the toolchain's `leanchecker`; returns (ok, tail of output).  Thorough tier only (1-2 min per module)."""
+    try:
+        p = subprocess.run(["lake", "env", "leanchecker", *modules], cwd=LEAN, capture_output=True, text=True, timeout=timeout)
+    except FileNotFoundError as e:
+        raise Infra(f"leanchecker not found: {e}")
+    except subprocess.TimeoutExpired:
+        raise Infra("leanchecker timed out")
+    return p.returncode == 0, (p.stdout + p.stderr)[-1500:]
 
 
 def lean_run_file(text, timeout=600):
